@@ -109,7 +109,21 @@ def streams(tier, rng):
     out = []
     if corpus:
         out.append(Stream("corpus", "c14", corpus, nontrivial=nt, hist=hist_of(corpus)))
+    # generated crates using the attribute macros (the tour crate is the one C12 builds: cached)
+    from props import c12, treeprog
+    progs = [treeprog.feature_tour("e2e_tour")] + [treeprog.rand_program(rng, "e2e_l%d" % i, size=12) for i in range(1 if not big else 6)]
+    real = []
+    for p in progs:
+        exe = c12.exe_path(p)
+        for flag in "noy":
+            real.append(p.line("TRLA", exe, ign=flag))
+        for _ in range(3 if not big else 8):
+            real.append(p.line("TRE", exe, ign=rng.choice("noy"),
+                               pos=[rng.choice(["alpha", "m", "::", "a", "1", "x", "Raw", "inner", "loop"])] if rng.random() < 0.7 else [],
+                               skip=[rng.choice(["beta", "2", "String", "q"])] if rng.random() < 0.4 else []))
     out += [
+        Stream("real-crates", "c14", real, nontrivial=nt, impl_runner=c12.build_then_run(progs), impl_timeout=900,
+               describe="%d generated crates using the attribute macros; listing, run and exact round trip of the compiled program" % len(progs)),
         Stream("ignore-chains", "c14", chain, nontrivial=nt, hist=hist_of(chain),
                describe="group/group/leaf option chains x 3 ignore flags, plain + args + generic leaves"),
         Stream("random-registries", "c14", rand, nontrivial=nt, hist=hist_of(rand)),
@@ -124,6 +138,8 @@ def shrink(item, rerun):
         impl, model, sb = rerun(item["mode"], case, crate=item.get("crate", CRATE), drv=item.get("drv", DRV))
         return (not sb.startswith("true")), impl, model, sb
     case = item["case"]
+    if " X," in case:
+        return item
     ok, *_ = fails(case)
     if not ok:
         return item
